@@ -36,10 +36,20 @@ from dask_array._core_utils import concatenate_lookup, tensordot_lookup
 @normalize_token.register(np.ma.masked_array)
 def _normalize_masked_array(x):
     if isinstance(x, np.ma.core.MaskedConstant):
-        # ``np.ma.masked`` (the meta/value of a fully-masked 0-d result) is a
-        # read-only singleton: even reading ``fill_value`` tries to set attributes.
-        return ("numpy.ma.masked",)
+        return _normalize_masked_constant(x)
     return (normalize_token(x.data), normalize_token(x.mask), normalize_token(x.fill_value))
+
+
+# ``np.ma.masked`` (the value and the meta of a fully-masked 0-d result, e.g. a
+# persisted ``prod`` over an empty masked array) is a read-only singleton: even
+# reading ``fill_value`` tries to set attributes.  Registered for its own, more
+# specific type as well, because dask's legacy handler for ``masked_array`` (which
+# reads ``fill_value``) replaces ours as soon as anything imports ``dask.array``
+# -- ``dask.layers`` does, for every overlap graph -- and dispatch prefers the
+# most specific registered class.
+@normalize_token.register(np.ma.core.MaskedConstant)
+def _normalize_masked_constant(x):
+    return ("numpy.ma.masked",)
 
 
 # --- Qualname tokenization of importable callables ---------------------------
